@@ -70,7 +70,9 @@ PROPS["C12"] = dict(
            "SpecFail1": "observations differ from the WHATWG list (or toString()+parse does not give the same list)",
            "SpecFail2": "new URLSearchParams(q) differs from the WHATWG urlencoded parser",
            "Implcopy-shares-state-with-its-source": "operations on new URLSearchParams(other) changed what `other` lists",
-           "Implhistory-threw": "a history threw"},
+           "Implhistory-threw": "a history threw",
+           "ImplforEach-is-not-the-live-walk-of-the-list": "forEach, with a callback that changes the list at one visit, did not visit what for...of (the live-index iterator of "
+                                                            "the model) visits with the same callback, or left another list"},
     trusted=["goja: iteration protocol, Array.from, JSON.stringify of results, UTF-16 <-> UTF-8 conversion of well-formed strings", "sort.Stable"],
     assumptions=["%XX runs decoding to ill-formed UTF-8 are outside the round-trip claim", "names in record constructors are distinct and not integer-like"],
 )
